@@ -33,6 +33,7 @@ def predFn : String → Option (Val → Bool)
   | "even" => some fun v => match v with | .int i => i % 2 == 0 | _ => false
   | "pos" => some fun v => match v with | .int i => decide (i > 0) | _ => false
   | "small" => some fun v => match v with | .int i => decide (i < 5) | _ => false
+  | "any" => some fun _ => true
   | "keven" => some fun v => match v with | .pair (.int k) _ => k % 2 == 0 | _ => false
   | "vodd" => some fun v => match v with | .pair _ (.int b) => b % 2 != 0 | _ => false
   | _ => none
@@ -152,27 +153,33 @@ def parseTerm : Nat → List String → Option (Term × List String)
 /-- `count()`'s closure -/
 def cntFn : Val → Val → Val := fun a _ => match a with | .int a => .int (a + 1) | a => a
 
-/-- tick-level terms (prefix notation); returns the term and whether its order is unspecified -/
-def parseTTerm : Nat → List String → Option (TTerm × Bool × List String)
+/-- tick-level terms (prefix notation); returns the term and whether its order is unspecified.
+    `cycT` is the term the token `cyc` stands for. -/
+def parseTTerm (cycT : TTerm) : Nat → List String → Option (TTerm × Bool × List String)
   | 0, _ => none
   | _, [] => none
   | fuel + 1, w :: rest =>
     let (op, arg) := splitTok w
     let un (mk : TTerm → Option TTerm) : Option (TTerm × Bool × List String) :=
-      match parseTTerm fuel rest with
+      match parseTTerm cycT fuel rest with
       | some (t, u, r) => (mk t).map (fun t' => (t', u, r))
       | none => none
     let bin (mk : TTerm → TTerm → TTerm) : Option (TTerm × Bool × List String) :=
-      match parseTTerm fuel rest with
+      match parseTTerm cycT fuel rest with
       | some (a, ua, r) =>
-        match parseTTerm fuel r with
+        match parseTTerm cycT fuel r with
         | some (b, ub, r') => some (mk a b, ua || ub, r')
         | none => none
       | none => none
     match op with
     | "b0" => some (.batch 0, false, rest)
     | "b1" => some (.batch 1, false, rest)
-    | "cyc" => some (.cyc, false, rest)
+    | "cyc" => some (cycT, false, rest)        -- what the program's cycle handle denotes (see `parseProg`)
+    | "sing" => arg.toInt?.map (fun n => (.constS (.int n), false, rest))
+    | "ofirst" => arg.toInt?.map (fun n => (.firstTick (.int n), false, rest))
+    | "toopt" => un fun t => some t            -- Singleton -> Optional: `HydroNode::Cast`
+    | "or" => bin .chainFirst
+    | "unwrapor" => bin .chainFirst
     | "map" => un fun t => (mapFn arg).map (fun f => .map f t)
     | "filter" => un fun t => (predFn arg).map (fun p => .filter p t)
     | "flatmap" => un fun t => (flatFn arg).map (fun g => .flatMap g t)
@@ -191,7 +198,7 @@ def parseTTerm : Nat → List String → Option (TTerm × Bool × List String)
     | "last" => un fun t => some (.reduce (fun _ x => x) t)
     | "tostream" => un fun t => some t
     | "kfold" =>
-      match parseTTerm fuel rest with
+      match parseTTerm cycT fuel rest with
       | some (t, _, r) => (foldFn arg).map (fun a => (.kfold a.2.1 a.2.2 t, true, r))
       | none => none
     | "chain" => bin .chain
@@ -260,16 +267,34 @@ def Prog.run : Prog → List TickIn → List Batch
 def parseProg (ws : List String) : Option Prog :=
   match ws with
   | "tick" :: rest =>
-    match parseTTerm (rest.length + 1) rest with
+    match parseTTerm .cyc (rest.length + 1) rest with
     | some (o, u, []) => some (.tick ⟨.cyc, o⟩ u)
     | _ => none
-  | "tcyc" :: rest =>
-    match parseTTerm (rest.length + 1) rest with
+  | "tcyc" :: rest | "tcycp" :: rest =>
+    -- `tick.cycle::<Stream…>()` / `tick.cycle::<Optional…>()`: `create_source(..).defer_tick()`
+    match parseTTerm .cyc (rest.length + 1) rest with
     | some (n, _, r) =>
-      match parseTTerm (r.length + 1) r with
+      match parseTTerm .cyc (r.length + 1) r with
       | some (o, u, []) => some (.tick ⟨n, o⟩ u)
       | _ => none
     | none => none
+  | hd :: rest =>
+    if hd == "tcyco" || hd == "tcycs" then
+      -- `tick.cycle_with_initial(INIT)` over an Optional / a Singleton: INIT NEXT OUT
+      match parseTTerm .cyc (rest.length + 1) rest with
+      | some (ini, _, r0) =>
+        let cycT := if hd == "tcyco" then TTerm.optCycleWithInitial ini else TTerm.singCycleWithInitial ini
+        match parseTTerm cycT (r0.length + 1) r0 with
+        | some (n, _, r) =>
+          match parseTTerm cycT (r.length + 1) r with
+          | some (o, u, []) => some (.tick ⟨n, o⟩ u)
+          | _ => none
+        | none => none
+      | none => none
+    else
+      match parseTerm (ws.length + 1) ws with
+      | some (t, []) => some (.top t (keyedNoOrder ws) (claimedBounded ws))
+      | _ => none
   | _ =>
     match parseTerm (ws.length + 1) ws with
     | some (t, []) => some (.top t (keyedNoOrder ws) (claimedBounded ws))
